@@ -84,6 +84,9 @@ func (a *MobileIdentity5GS) SetMobileIdentity5GSContents(mobileIdentity5GSConten
 // All other values are unused and shall be interpreted
 // as "SUCI", if received by the UE
 func (a *MobileIdentity5GS) GetTypeOfIdentity() (string, error) {
+	if len(a.Buffer) < 1 {
+		return "", errors.New("empty mobile identity")
+	}
 	idType := a.Buffer[0] & high5BitMask
 	switch idType {
 	case noIdentity:
@@ -139,6 +142,11 @@ func (a *MobileIdentity5GS) GetSUCI() string {
 			return naiToString(a.Buffer)
 		}
 
+		// type, PLMN, routing indicator, protection scheme, key identifier, at least one octet of scheme output
+		if len(a.Buffer) < 9 {
+			return ""
+		}
+
 		mcc := a.GetMCC()
 		mnc := a.GetMNC()
 
@@ -186,12 +194,18 @@ func (a *MobileIdentity5GS) GetSUCI() string {
 
 // GetPlmnID
 func (a *MobileIdentity5GS) GetPlmnID() string {
+	if len(a.Buffer) < 4 {
+		return ""
+	}
 	plmnId := a.GetMCC() + a.GetMNC()
 	return plmnId
 }
 
 // GetMCC
 func (a *MobileIdentity5GS) GetMCC() string {
+	if len(a.Buffer) < 3 {
+		return ""
+	}
 	mccDigit3 := (a.Buffer[2] & high4BitMask)
 	tmpBytes := []byte{bits.RotateLeft8(a.Buffer[1], 4), (mccDigit3 << 4)}
 	mcc := hex.EncodeToString(tmpBytes)
@@ -201,6 +215,9 @@ func (a *MobileIdentity5GS) GetMCC() string {
 
 // GetMNC
 func (a *MobileIdentity5GS) GetMNC() string {
+	if len(a.Buffer) < 4 {
+		return ""
+	}
 	mncDigit3 := (a.Buffer[2] & low4BitMask) >> 4
 	tmpBytes := []byte{bits.RotateLeft8(a.Buffer[3], 4), mncDigit3 << 4}
 	mnc := hex.EncodeToString(tmpBytes)
@@ -214,16 +231,25 @@ func (a *MobileIdentity5GS) GetMNC() string {
 
 // Get5GGUTI
 func (a *MobileIdentity5GS) Get5GGUTI() string {
+	if len(a.Buffer) < 11 {
+		return ""
+	}
 	return a.GetMCC() + a.GetMNC() + a.GetAmfID() + a.Get5GTMSI()
 }
 
 // GetAmfID
 func (a *MobileIdentity5GS) GetAmfID() string {
+	if len(a.Buffer) < 7 {
+		return ""
+	}
 	return hex.EncodeToString(a.Buffer[4:7])
 }
 
 // GetAmfRegionID
 func (a *MobileIdentity5GS) GetAmfRegionID() string {
+	if len(a.Buffer) < 5 {
+		return ""
+	}
 	return hex.EncodeToString(a.Buffer[4:5])
 }
 
@@ -238,6 +264,10 @@ func (a *MobileIdentity5GS) GetAmfSetID() string {
 
 	if idType == "5G-S-TMSI" && err == nil {
 		amfSetStartPoint = 1
+	}
+
+	if len(a.Buffer) < amfSetStartPoint+2 {
+		return ""
 	}
 
 	amfSetID := (uint16(a.Buffer[amfSetStartPoint])<<2 + uint16((a.Buffer[amfSetStartPoint+1])&GetBitMask(8, 2))>>6)
@@ -256,6 +286,9 @@ func (a *MobileIdentity5GS) GetAmfPointer() string {
 	if idType == "5G-S-TMSI" && err == nil {
 		amfPointerStartPoint = 2
 	}
+	if len(a.Buffer) < amfPointerStartPoint+1 {
+		return ""
+	}
 	AMFPointer := (a.Buffer[amfPointerStartPoint]) & GetBitMask(6, 0)
 	AMFPointer_string := strconv.FormatUint(uint64(AMFPointer), 10)
 	return AMFPointer_string
@@ -265,10 +298,16 @@ func (a *MobileIdentity5GS) GetAmfPointer() string {
 func (a *MobileIdentity5GS) Get5GTMSI() string {
 	idType, err := a.GetTypeOfIdentity()
 	if idType == "5G-GUTI" && err == nil {
+		if len(a.Buffer) < 11 {
+			return ""
+		}
 		tmsi5G_string := hex.EncodeToString(a.Buffer[7:])
 		return tmsi5G_string
 
 	} else if idType == "5G-S-TMSI" && err == nil {
+		if len(a.Buffer) < 7 {
+			return ""
+		}
 
 		tmsi5G := a.Buffer[3:7]
 		tmsi5G_string := hex.EncodeToString(tmsi5G[0:])
@@ -298,6 +337,9 @@ func (a *MobileIdentity5GS) GetIMEISV() string {
 }
 
 func (a *MobileIdentity5GS) Get5GSTMSI() (tMSI5GS string, mobileIdType string, err error) {
+	if len(a.Buffer) < 7 {
+		return "", "", errors.New("too short 5G-S-TMSI")
+	}
 	partOfAmfId := hex.EncodeToString(a.Buffer[1:3])
 	tmsi5g := a.Get5GTMSI()
 	tMSI5GS = partOfAmfId + tmsi5g
